@@ -19,7 +19,7 @@ ASSUME_COMMON = [
 
 def to_replay(s):
     return {"sid": s.sid, "kinds": s.kinds, "defs": s.defs, "hist": s.hist, "pre": s.pre, "f1": s.f1, "fp": s.fp,
-            "fuel": s.fuel, "npids": s.npids, "nuids": s.nuids, "sched": s.sched, "progs": s.progs, "meta": s.meta}
+            "unw": s.unw, "fuel": s.fuel, "npids": s.npids, "nuids": s.nuids, "sched": s.sched, "progs": s.progs, "meta": s.meta}
 
 
 def tup(x):
@@ -35,7 +35,7 @@ def from_replay(j):
     sched = tuple(sc["sched"]) if sc.get("sched") else None
     return [Scen(sid=sc["sid"], kinds=sc["kinds"], defs=defs, hist=hist, pre=pre, f1=sc["f1"],
                  fp=[tuple(x) for x in sc["fp"]], fuel=sc["fuel"], npids=sc["npids"], nuids=sc["nuids"],
-                 sched=sched, progs=progs, meta=sc.get("meta", {}))]
+                 sched=sched, progs=progs, unw=sc.get("unw", []), meta=sc.get("meta", {}))]
 
 
 def obs_list(r):
